@@ -53,9 +53,9 @@ HEADER = list(Triple.model_fields)
 def _get_file(path: str | Path, read: bool) -> Generator[TextIO, None, None]:
     path = Path(path).expanduser().resolve()
     if path.suffix == ".gz":
-        yield gzip.open(path, mode="rt" if read else "wt")
+        yield gzip.open(path, mode="rt" if read else "wt", newline="")
     else:
-        yield open(path, mode="r" if read else "w")
+        yield open(path, mode="r" if read else "w", newline="")
 
 
 def write_triples(
